@@ -30,9 +30,11 @@ from vf import common, tlc, evidence
 PROP = "C17"
 NPROC = int(os.environ.get("VF_WORKERS", "16") or 16)    # default 16; lower it on a loaded machine
 
-ACTIONS = ["StartGen", "CaseGen", "StartTower", "CaseTower", "StartProt", "CaseProt", "StartRaw", "StepRaw",
-           "StartRawE", "StepRawE", "StartExpr", "CaseExpr", "StartIll", "CaseIll", "StartETower", "CaseETower",
-           "StartEProt", "CaseEProt"]
+# vacuity: every enumeration action of the spec must have produced cases (TLC's -coverage slows this
+# print-heavy enumeration down several times, so the families are counted from the printed cases instead)
+FAMILIES = {("s", "gen"): "CaseGen", ("s", "tower"): "CaseTower", ("s", "prot"): "CaseProt", ("raw", ""): "StepRaw",
+            ("rawe", ""): "StepRawE", ("e", "expr"): "CaseExpr", ("e", "ill"): "CaseIll", ("e", "etower"): "CaseETower",
+            ("e", "eprot"): "CaseEProt"}
 REACH = ["ReachLazySkip", "ReachNounsetDiffers", "ReachIllTyped", "ReachPrecedence"]
 
 # environments for inputs that are not tied to a generated case
@@ -481,12 +483,10 @@ def main():
     # (A) exhaustive enumeration = model check of the reference semantics
     cases = []
     for cfg in (["StringSubst.cfg"] if quick else ["StringSubst_thorough.cfg", "StringSubst_thorough_rich.cfg"]):
-        res = tlc.run("StringSubst", cfg, workers=NPROC, coverage=quick, timeout=15000, heap="12g")
+        res = tlc.run("StringSubst", cfg, workers=NPROC, timeout=15000, heap="12g")
         rep.add_tlc(res, cfg)
         if res.violated:
             rep.violation("model:" + res.violated, {"cex": res.cex[-2:], "config": cfg})
-        if quick:
-            tlc.require_coverage(res, ACTIONS, cfg)
         cases += res.printed
         res.printed = None
         res.out = ""
@@ -506,9 +506,10 @@ def main():
         seen.add(key)
         by[c["k"]].append(c)
     del seen
-    if not by["s"] or not by["e"] or not by["raw"] or not by["rawe"]:
-        raise tlc.TlcError("TLC printed no cases of some kind: %s" % {k: len(v) for k, v in by.items()})
     fams = collections.Counter((c["k"], c.get("f", "")) for c in cases)
+    missing = [act for fam, act in FAMILIES.items() if fams[fam] == 0]
+    if missing:
+        raise tlc.TlcError("vacuity: actions that produced no case: %s" % missing)
     rep.extra["cases_by_family"] = {"%s/%s" % k: v for k, v in sorted(fams.items())}
     # the same rendered source must not have two different reference values (ambiguous Render)
     ref = {}
